@@ -30,10 +30,11 @@ CFG = {
         {"component": "writeabort", "trivial_regex": r"^(bad-.*)$", "timeout_quick": 300, "timeout_thorough": 1500, "shrink_s": 5},
     ],
     "rule": "shared: boundary sessions (incl. 10 per kind with SetReadDeadline/SetWriteDeadline/SetDeadline past|zero and the abortIO "
-            "sequence on one handle while siblings stay open) + random sessions (quick 200, thorough 24000) of "
+            "sequence on one handle while siblings stay open) + random sessions (quick 240, thorough 28000) of "
             "open/close/abort/read/write/writeap/setrd/setwd/setd/feed over "
             "<= 8 handles for each of fake / UDP mux / TCP mux / UDP mux over an AddrPort-capable socket (sharedAddrPortConn handles) "
-            "underlying connections; distinct = distinct (operation, output) lines. "
+            "/ TCP mux packet conn with 2..8 scripted net.Conns any of which may refuse SetWriteDeadline (18 boundary sessions that "
+            "write to every connection after the arming handle went away) underlying connections; distinct = distinct (operation, output) lines. "
             "writeabort: 30 deterministic schedules built from the scripted socket (10 over a plain socket / the net.Addr write path; "
             "20 over an AddrPort-capable socket or mixing both write paths or socket-call windows: a write that fails with a non-deadline error followed "
             "by an abort of the other user and writes by everybody, a failing write beside a blocked one, a blocked write released "
@@ -50,7 +51,7 @@ CFG = {
                      "load+CAS loop iteration modelled as one atomic step at the CAS (failed CAS = stutter)"],
     "assumptions": ["C13_*_partial: SetWriteDeadline(time.Now()) does not fail (excluded point = finding F11, witness theorems + replay)",
                     "a write deadline held by a still-open handle is shared with its siblings by design (observation statistic, not a "
-                    "violation); the underlying SetWriteDeadline(zero) issued by Close does not fail",
+                    "violation); a connection that has refused a deadline call is not healthy (its own writes may fail)",
                     "C13_refcount: no handle is requested for an underlying connection that is already closed (muxes create a new one)",
                     "SetWriteDeadline(time.Time{}) does not fail; fewer than 2^62 concurrent writers"],
 }
